@@ -19,10 +19,23 @@
       receives nothing;
     * `C10_witness_*` — kernel-checked concrete failures of today's code that are *reported* errors
       (A/AAAA residue, SRV label, CNAME overflow) and the one silent one (Raw over names).
-  Multi-record reassembly (order tags, TypePriority sort) is in the executable model and in the
-  correspondence, not in a theorem: see notes/C10.md.
+  Extension (second half of the file): multi-record reassembly is now a theorem.
+    * `C10_sort_inverts_tagging` — the key lemma, generic: records tagged o, o+1, … whose decoded key is
+      strictly increasing on the tags used, in ANY arrival order, under ANY correct comparison sort
+      (`SortSpec`: permutation + ordered; all `sort.Slice` promises), unwrap to the pieces in order.
+      `C10_sort_model_correct`, `C10_sorts_agree_on_distinct_tags` tie the model's insertion sort to it.
+    * `C10_tag_range` — per record type, the exact record count up to which the decoded tags increase
+      (NULL/PRIVATE/AAAA/SRV 65535, A 255, MX 6553, TXT 512, CNAME 511) and that the next tag wraps.
+    * `C10_reassembly` — every record type, every payload length: if WrapDnsResponse and Pack/Unpack
+      succeed, the record count is within the tag range and the input is outside `C10_exception`, the
+      client decodes exactly the response sent (and would for any arrival order / sort).
+    * `C10_multi_null_priv`, `C10_multi_txt`, `C10_multi_a_aaaa` — success is unconditional there.
+    * `C10_a_overflow_reported` — beyond 255 A records an error is reported.
+    * `C10_no_silent_corruption` — on every input outside the exception region and within the tag
+      range: the response sent, or an error; never a different response, never a panic.
 -/
 import SA.Proofs.DnsResp
+import SA.Proofs.DnsRespAll
 namespace SA.DnsResp
 open SA.DnsWire SA.WireCodec SA.DnsReq
 
@@ -63,9 +76,11 @@ theorem roundTrip_of (b32 down : Codec) (t : RRType) (domain : List Nat) (r r' :
     (answers got : List RR) (data : List Nat)
     (h1 : wrap t domain (encodeResp b32 down r) = some answers) (hq : questionOk domain = true)
     (h2 : answersOverWire answers = .ok got) (h3 : unwrap domain.length got = some data)
-    (h4 : decodeResp b32 down data = .ok r') :
+    (h4 : decodeResp b32 down data = .ok r') (h16 : got.length < 65536) :
     roundTrip b32 down t domain r = .ok got.length data.length r' := by
-  simp only [roundTrip, h1, hq, h2, h3, h4, Bool.not_true, Bool.false_eq_true, if_false]
+  have htake : got.take (got.length % 65536) = got := by
+    rw [Nat.mod_eq_of_lt h16]; exact List.take_length
+  simp only [roundTrip, h1, hq, h2, htake, h3, h4, Bool.not_true, Bool.false_eq_true, if_false]
 
 theorem unwrap_single (L : Nat) (rr : RR) (key : Int) (data : List Nat)
     (hk : typePriority rr = some key) (hu : unwrapOne L rr = some data) :
@@ -100,7 +115,7 @@ theorem C10_partial (b32 down : Codec) (hb : b32.Good) (hd : down.Good)
       simp [answersOverWire, rrOverWire, hl3]
     have h3 : unwrap domain.length [RR.null d] = some data :=
       unwrap_single _ _ (10000 + 1) data (by simp [typePriority, h16]) (by simp [unwrapOne, hl2, hdrop])
-    have := roundTrip_of b32 down .null domain r r _ _ data h1 hq h2 h3 hdec
+    have := roundTrip_of b32 down .null domain r r _ _ data h1 hq h2 h3 hdec (by simp)
     simpa using this
   | priv =>
     have hlen : data.length ≤ SA.Gen.C09.wrapChunkPrivate := by simpa [C10_region] using hreg
@@ -115,7 +130,7 @@ theorem C10_partial (b32 down : Codec) (hb : b32.Good) (hd : down.Good)
       simp [answersOverWire, rrOverWire, hl3, C10_private_registered]
     have h3 : unwrap domain.length [RR.priv d] = some data :=
       unwrap_single _ _ (20000 + 1) data (by simp [typePriority, h16]) (by simp [unwrapOne, hl2, hdrop])
-    have := roundTrip_of b32 down .priv domain r r _ _ data h1 hq h2 h3 hdec
+    have := roundTrip_of b32 down .priv domain r r _ _ data h1 hq h2 h3 hdec (by simp)
     simpa using this
   | txt =>
     have hlen : data.length ≤ SA.Gen.C09.wrapChunkTxt := by simpa [C10_region] using hreg
@@ -151,7 +166,7 @@ theorem C10_partial (b32 down : Codec) (hb : b32.Good) (hd : down.Good)
       refine unwrap_single _ _ (30000 + (b32CharToInt 97 + b32CharToInt 97 * 32)) data ?_ ?_
       · simp [typePriority, htl]
       · simp [unwrapOne, hesc.1, hun, hl2, hdrop]
-    have := roundTrip_of b32 down .txt domain r r _ _ data h1 hq h2 h3 hdec
+    have := roundTrip_of b32 down .txt domain r r _ _ data h1 hq h2 h3 hdec (by simp)
     simpa using this
   | srv => simp [C10_region] at hreg
   | mx => simp [C10_region] at hreg
@@ -216,6 +231,172 @@ theorem C10_witness_raw_over_names : ¬ C10_full := by
   rw [hv] at this
   exact absurd this (by decide)
 
+/-! ## Extension: multi-record reassembly and "no silent corruption" -/
+
+/-- the model's insertion sort meets the contract of a comparison sort (permutation, ordered) -/
+theorem C10_sort_model_correct : SortSpec sortByKey := sortByKey_spec
+
+/-- any two correct comparison sorts (the model's, Go's `sort.Slice`, …) agree whenever the keys are
+    pairwise distinct — stability is irrelevant there -/
+theorem C10_sorts_agree_on_distinct_tags {s₁ s₂ : List (Int × RR) → List (Int × RR)}
+    (h₁ : SortSpec s₁) (h₂ : SortSpec s₂) (xs : List (Int × RR)) (hd : xs.Pairwise (fun a b => a.1 ≠ b.1)) :
+    s₁ xs = s₂ xs := sorts_agree h₁ h₂ xs hd
+
+/-- **Key lemma: sorting by the decoded tag is the inverse of tagging.**  `rs` are records tagged
+    o, o+1, … (`Tagged`: TypePriority decodes `kf` of the tag, UnwrapDnsResponse extracts the piece);
+    if `kf` is strictly increasing on the tags used, then for ANY arrival order `xs` of the records and
+    ANY correct sort, unwrapping yields the pieces concatenated in tagging order. -/
+theorem C10_sort_inverts_tagging {sort : List (Int × RR) → List (Int × RR)} (hs : SortSpec sort)
+    (L : Nat) (kf : Nat → Int) (o : Nat) (rs : List RR) (ds : List (List Nat)) (ht : Tagged L kf o rs ds)
+    (hmono : ∀ i j, o ≤ i → i < j → j < o + rs.length → kf i < kf j)
+    (xs : List RR) (hp : xs.Perm rs) :
+    unwrapWith sort L xs = some ds.flatten := unwrap_tagged hs L kf o rs ds ht hmono xs hp
+
+/-- **The tag range, exactly.**  For each record type the decoded order tag (`tagKey`: little-endian
+    16-bit for NULL / PRIVATE / AAAA, one byte for A, Preference = 10·order mod 2¹⁶ for MX, Priority for
+    SRV, and for TXT / CNAME the two base-32 characters `order & 31`, `(order >> 4) & 31` read back as
+    c0 + 32·c1) is strictly increasing over the first `tagBound` records, and the tag of the next
+    record is not above that of the first: reassembly by sorting is correct up to exactly
+    65535 / 65535 / 65535 / 255 / 6553 / 65535 / 512 / 511 records. -/
+theorem C10_tag_range (t : RRType) :
+    (∀ i j, tagStart t ≤ i → i < j → j < tagStart t + tagBound t → tagKey t i < tagKey t j)
+    ∧ tagKey t (tagStart t + tagBound t) ≤ tagKey t (tagStart t) := ⟨tagKey_mono t, tagKey_wraps t⟩
+
+/-- the record count WrapDnsResponse produces stays within the tag range -/
+def C10_countOk (t : RRType) (domainLen len : Nat) : Bool := recordCount t domainLen len ≤ tagBound t
+
+/-- the region excepted from the theorems below = the open finding `C10-raw-over-names`: a
+    name-carrying record type (CNAME, MX, SRV) and an encoded payload containing '.' or '\\' -/
+def C10_exception (t : RRType) (enc : List Nat) : Bool := rawOverNames t enc
+
+/-- **C10, reassembly for every record type and payload length.**  Whenever WrapDnsResponse succeeds
+    and every record survives Pack/Unpack — outside the exception region, within the tag range, for
+    CNAME/MX/SRV over a domain of plain labels — the client decodes exactly the response that was sent,
+    from as many records as the wrapper made; and UnwrapDnsResponse would return the same payload for
+    any arrival order of the records and any correct sort. -/
+theorem C10_reassembly (b32 down : Codec) (hb : b32.Good) (hd : down.Good)
+    (t : RRType) (domain : List Nat) (dls : List (List Nat)) (r : Resp) (hr : RespOk r)
+    (hq : questionOk domain = true) (hbytes : SA.Bytes (encodeResp b32 down r))
+    (hexc : C10_exception t (encodeResp b32 down r) = false)
+    (hdom : isName t = true → DomainOk domain dls)
+    (hcount : C10_countOk t domain.length (encodeResp b32 down r).length = true)
+    (answers got : List RR)
+    (hw : wrap t domain (encodeResp b32 down r) = some answers) (hwire : answersOverWire answers = .ok got) :
+    roundTrip b32 down t domain r
+        = .ok (recordCount t domain.length (encodeResp b32 down r).length) (encodeResp b32 down r).length r
+    ∧ ∀ sort, SortSpec sort → ∀ xs, xs.Perm got →
+        unwrapWith sort domain.length xs = some (encodeResp b32 down r) := by
+  have hcnt := wrap_count t domain _ answers hw
+  have hc : answers.length ≤ tagBound t := by
+    rw [hcnt]; simpa [C10_countOk] using hcount
+  have hdec := decodeResp_encodeResp b32 down hb hd r hr
+  have hall := unwrap_wire_wrap t domain dls _ answers got hbytes hexc hdom hw hwire hc
+  constructor
+  · have h3 := (hall sortByKey sortByKey_spec got (List.Perm.refl _)).2
+    rw [← unwrap_eq_unwrapWith] at h3
+    have hgl := (hall sortByKey sortByKey_spec got (List.Perm.refl _)).1
+    have h16 : got.length < 65536 := by
+      have : tagBound t ≤ 65535 := by cases t <;> decide
+      omega
+    have := roundTrip_of b32 down t domain r r answers got _ hw hq hwire h3 hdec h16
+    rw [this, hgl, hcnt]
+  · intro sort hs xs hp
+    exact (hall sort hs xs hp).2
+
+/-- **C10, NULL and PRIVATE, every payload length.**  ⌈len/65530⌉ records, little-endian 16-bit order
+    tags; as long as that count is at most 65535 the round trip succeeds. -/
+theorem C10_multi_null_priv (b32 down : Codec) (hb : b32.Good) (hd : down.Good)
+    (t : RRType) (ht : t = .null ∨ t = .priv) (domain : List Nat) (r : Resp) (hr : RespOk r)
+    (hq : questionOk domain = true) (hbytes : SA.Bytes (encodeResp b32 down r))
+    (hcount : C10_countOk t domain.length (encodeResp b32 down r).length = true) :
+    roundTrip b32 down t domain r
+      = .ok (ceilDiv (encodeResp b32 down r).length 65530) (encodeResp b32 down r).length r := by
+  rcases ht with rfl | rfl
+  · have hw : wrap .null domain (encodeResp b32 down r) = some ((chunkRecs SA.Gen.C09.wrapChunkNull (fun o => le16 o)
+        (encodeResp b32 down r).length 1 (encodeResp b32 down r)).map .null) := by simp only [wrap]
+    exact (C10_reassembly b32 down hb hd .null domain [] r hr hq hbytes (by simp [C10_exception, rawOverNames, isName])
+      (by simp [isName]) hcount _ _ hw
+      (wire_null_priv RR.null (Or.inl rfl) SA.Gen.C09.wrapChunkNull (by decide) (by decide) _ 1 _)).1
+  · have hw : wrap .priv domain (encodeResp b32 down r) = some ((chunkRecs SA.Gen.C09.wrapChunkPrivate (fun o => le16 o)
+        (encodeResp b32 down r).length 1 (encodeResp b32 down r)).map .priv) := by simp only [wrap]
+    exact (C10_reassembly b32 down hb hd .priv domain [] r hr hq hbytes (by simp [C10_exception, rawOverNames, isName])
+      (by simp [isName]) hcount _ _ hw
+      (wire_null_priv RR.priv (Or.inr rfl) SA.Gen.C09.wrapChunkPrivate (by decide) (by decide) _ 1 _)).1
+
+/-- **C10, TXT, every payload length.**  253-byte strings, 250 strings per record, backslashes doubled
+    by the wrapper and every byte value escaped by miekg and unescaped by the client; as long as the
+    record count ⌈⌈len/253⌉/250⌉ is at most 512 the round trip succeeds. -/
+theorem C10_multi_txt (b32 down : Codec) (hb : b32.Good) (hd : down.Good)
+    (domain : List Nat) (r : Resp) (hr : RespOk r)
+    (hq : questionOk domain = true) (hbytes : SA.Bytes (encodeResp b32 down r))
+    (hcount : C10_countOk .txt domain.length (encodeResp b32 down r).length = true) :
+    roundTrip b32 down .txt domain r
+      = .ok (ceilDiv (ceilDiv (encodeResp b32 down r).length 253) 250) (encodeResp b32 down r).length r := by
+  obtain ⟨answers, got, _, h1, h2, _⟩ := tagged_txt domain _ hbytes
+  exact (C10_reassembly b32 down hb hd .txt domain [] r hr hq hbytes (by simp [C10_exception, rawOverNames, isName])
+    (by simp [isName]) hcount answers got h1 h2).1
+
+/-- **C10, A and AAAA, on the region where packing succeeds** (payload a multiple of 3 / 14 bytes, at
+    most 255 / 65535 records): the round trip succeeds. -/
+theorem C10_multi_a_aaaa (b32 down : Codec) (hb : b32.Good) (hd : down.Good)
+    (t : RRType) (ht : (t = .a ∧ (encodeResp b32 down r).length % 3 = 0)
+      ∨ (t = .aaaa ∧ (encodeResp b32 down r).length % 14 = 0))
+    (domain : List Nat) (hr : RespOk r)
+    (hq : questionOk domain = true) (hbytes : SA.Bytes (encodeResp b32 down r))
+    (hcount : C10_countOk t domain.length (encodeResp b32 down r).length = true) :
+    roundTrip b32 down t domain r
+      = .ok (recordCount t domain.length (encodeResp b32 down r).length) (encodeResp b32 down r).length r := by
+  rcases ht with ⟨rfl, hm⟩ | ⟨rfl, hm⟩
+  · have hle : ¬ ((chunkRecs SA.Gen.C09.wrapChunkA (fun o => [o % 256]) (encodeResp b32 down r).length 1
+        (encodeResp b32 down r)).length > 255) := by
+      rw [chunkRecs_length, pieces_length _ (by decide) _ _ (Nat.le_refl _)]
+      have : recordCount .a domain.length (encodeResp b32 down r).length ≤ 255 := of_decide_eq_true hcount
+      exact Nat.not_lt.mpr this
+    have hw : wrap .a domain (encodeResp b32 down r) = some ((chunkRecs SA.Gen.C09.wrapChunkA (fun o => [o % 256])
+        (encodeResp b32 down r).length 1 (encodeResp b32 down r)).map .a) := by simp only [wrap, hle, if_false]
+    exact (C10_reassembly b32 down hb hd .a domain [] r hr hq hbytes (by simp [C10_exception, rawOverNames, isName])
+      (by simp [isName]) hcount _ _ hw (wire_a _ 1 _ hm)).1
+  · have hw : wrap .aaaa domain (encodeResp b32 down r) = some ((chunkRecs SA.Gen.C09.wrapChunkAAAA (fun o => le16 o)
+        (encodeResp b32 down r).length 1 (encodeResp b32 down r)).map .aaaa) := by simp only [wrap]
+    exact (C10_reassembly b32 down hb hd .aaaa domain [] r hr hq hbytes (by simp [C10_exception, rawOverNames, isName])
+      (by simp [isName]) hcount _ _ hw (wire_aaaa _ 1 _ hm)).1
+
+/-- **C10, the A tag cannot wrap silently**: more than 255 A records are refused by the wrapper. -/
+theorem C10_a_overflow_reported (b32 down : Codec) (domain : List Nat) (r : Resp)
+    (hcount : C10_countOk .a domain.length (encodeResp b32 down r).length = false) :
+    roundTrip b32 down .a domain r = .encError := by
+  apply C10_error_reported_wrap
+  have hgt : (chunkRecs SA.Gen.C09.wrapChunkA (fun o => [o % 256]) (encodeResp b32 down r).length 1
+      (encodeResp b32 down r)).length > 255 := by
+    rw [chunkRecs_length, pieces_length _ (by decide) _ _ (Nat.le_refl _)]
+    have : ¬ (recordCount .a domain.length (encodeResp b32 down r).length ≤ 255) := of_decide_eq_false hcount
+    exact Nat.not_le.mp this
+  simp only [wrap, hgt, if_true]
+
+/-- **C10, no silent corruption.**  On every input — every record type, every payload length, every
+    codec pair with round trip, every response in range — outside the exception region
+    (`C10_exception`, the open finding) and within the tag range (`C10_countOk`), over a domain of plain
+    labels for the name-carrying types: the client's result is the response that was sent or a
+    reported error; never a different response, never a panic. -/
+theorem C10_no_silent_corruption (b32 down : Codec) (hb : b32.Good) (hd : down.Good)
+    (t : RRType) (domain : List Nat) (dls : List (List Nat)) (r : Resp) (hr : RespOk r)
+    (hq : questionOk domain = true) (hbytes : SA.Bytes (encodeResp b32 down r))
+    (hexc : C10_exception t (encodeResp b32 down r) = false)
+    (hdom : isName t = true → DomainOk domain dls)
+    (hcount : C10_countOk t domain.length (encodeResp b32 down r).length = true) :
+    match roundTrip b32 down t domain r with
+    | .ok _ _ r' => r' = r
+    | .panic => False
+    | _ => True := by
+  cases hw : wrap t domain (encodeResp b32 down r) with
+  | none => rw [C10_error_reported_wrap b32 down t domain r hw]; trivial
+  | some answers =>
+    cases hwire : answersOverWire answers with
+    | error e =>
+      rcases C10_error_reported_wire b32 down t domain r answers e hw hwire with h | h <;> rw [h] <;> trivial
+    | ok got =>
+      rw [(C10_reassembly b32 down hb hd t domain dls r hr hq hbytes hexc hdom hcount answers got hw hwire).1]
+
 /-! ### non-vacuity -/
 
 /-- the hypotheses of `C10_partial` are satisfiable together (Raw over NULL, TXT and PRIVATE; the TXT
@@ -235,6 +416,109 @@ example : ∀ t ∈ [RRType.null, RRType.txt, RRType.priv],
 /-- every error code of BadErrors is an admissible error text -/
 example : ∀ e ∈ SA.Gen.C09.badErrors, ErrOk e := by decide
 
+/-! ### non-vacuity of the extension -/
+
+theorem bytes_replicate (n b : Nat) (hb : b < 256) : SA.Bytes (List.replicate n b) := by
+  intro x hx; rw [List.eq_of_mem_replicate hx]; exact hb
+
+theorem respOk_downEnc (d : List Nat) (hd : SA.Bytes d) : RespOk (.downEnc none d) :=
+  ⟨fun e he => (by cases he), hd, fun h => (by simp at h)⟩
+
+theorem enc_downEnc_raw (d : List Nat) : encodeResp raw raw (.downEnc none d) = 121 :: 111 :: d := rfl
+
+/-- NULL and PRIVATE: any number of records up to 65535 (here: every payload length n, ⌈(n+2)/65530⌉ records) -/
+example (n : Nat) (hn : n + 2 ≤ 65535 * 65530) (t : RRType) (ht : t = .null ∨ t = .priv) :
+    roundTrip raw raw t [97, 46, 98] (.downEnc none (List.replicate n 7))
+      = .ok (ceilDiv (n + 2) 65530) (n + 2) (.downEnc none (List.replicate n 7)) := by
+  have hl : (encodeResp raw raw (.downEnc none (List.replicate n 7))).length = n + 2 := by simp [enc_downEnc_raw]
+  have hc : C10_countOk t [97, 46, 98].length (encodeResp raw raw (.downEnc none (List.replicate n 7))).length = true := by
+    rw [hl]
+    rcases ht with rfl | rfl <;>
+    · apply decide_eq_true
+      show (n + 2 + 65530 - 1) / 65530 ≤ 65535
+      omega
+  have := C10_multi_null_priv raw raw raw_good raw_good t ht [97, 46, 98] _
+    (respOk_downEnc _ (bytes_replicate n 7 (by decide))) (by decide)
+    (by rw [enc_downEnc_raw]; exact bytes_cons (by decide) (bytes_cons (by decide) (bytes_replicate n 7 (by decide)))) hc
+  rw [hl] at this
+  exact this
+
+/-- TXT: every payload length up to 512 records, payload made of backslashes (the escaping path) -/
+example (n : Nat) (hn : n + 2 ≤ 512 * 250 * 253) :
+    roundTrip raw raw .txt [97, 46, 98] (.downEnc none (List.replicate n 92))
+      = .ok (ceilDiv (ceilDiv (n + 2) 253) 250) (n + 2) (.downEnc none (List.replicate n 92)) := by
+  have hl : (encodeResp raw raw (.downEnc none (List.replicate n 92))).length = n + 2 := by simp [enc_downEnc_raw]
+  have hc : C10_countOk .txt [97, 46, 98].length (encodeResp raw raw (.downEnc none (List.replicate n 92))).length = true := by
+    rw [hl]
+    apply decide_eq_true
+    show ((n + 2 + 253 - 1) / 253 + 250 - 1) / 250 ≤ 512
+    omega
+  have := C10_multi_txt raw raw raw_good raw_good [97, 46, 98] _
+    (respOk_downEnc _ (bytes_replicate n 92 (by decide))) (by decide)
+    (by rw [enc_downEnc_raw]; exact bytes_cons (by decide) (bytes_cons (by decide) (bytes_replicate n 92 (by decide)))) hc
+  rw [hl] at this
+  exact this
+
+/-- A: every payload of 3k bytes up to 255 records; AAAA: 14k bytes up to 65535 records -/
+example (k : Nat) (hk1 : 1 ≤ k) (hk : k ≤ 255) :
+    roundTrip raw raw .a [97, 46, 98] (.downEnc none (List.replicate (3 * k - 2) 200))
+      = .ok k (3 * k) (.downEnc none (List.replicate (3 * k - 2) 200)) := by
+  have hl : (encodeResp raw raw (.downEnc none (List.replicate (3 * k - 2) 200))).length = 3 * k := by
+    simp [enc_downEnc_raw]; omega
+  have hc : C10_countOk .a [97, 46, 98].length (encodeResp raw raw (.downEnc none (List.replicate (3 * k - 2) 200))).length = true := by
+    rw [hl]
+    apply decide_eq_true
+    show (3 * k + 3 - 1) / 3 ≤ 255
+    omega
+  have := C10_multi_a_aaaa (r := .downEnc none (List.replicate (3 * k - 2) 200)) raw raw raw_good raw_good .a
+    (Or.inl ⟨rfl, by rw [hl]; omega⟩) [97, 46, 98]
+    (respOk_downEnc _ (bytes_replicate _ 200 (by decide))) (by decide)
+    (by rw [enc_downEnc_raw]; exact bytes_cons (by decide) (bytes_cons (by decide) (bytes_replicate _ 200 (by decide)))) hc
+  rw [hl] at this
+  have hcnt : recordCount .a [97, 46, 98].length (3 * k) = k := by
+    show (3 * k + 3 - 1) / 3 = k
+    omega
+  rw [hcnt] at this
+  exact this
+
+theorem domainOk_ab : DomainOk [97, 46, 98] [[97], [98]] := by
+  refine ⟨by decide, ?_, ?_⟩
+  · unfold GoodLabel NoSyntax; decide
+  · unfold PlainLabel; decide
+
+/-- CNAME, MX, SRV: the hypotheses of `C10_no_silent_corruption` / `C10_reassembly` are satisfiable
+    together and the `ok` branch is reached (version reply, bytes 0 and 1 in the payload are `\DDD`
+    on the way back) -/
+example : ∀ t ∈ [RRType.cname, RRType.mx, RRType.srv],
+    roundTrip raw raw t [97, 46, 98] (.version 1 2 none) = .ok 1 8 (.version 1 2 none)
+    ∧ C10_exception t (encodeResp raw raw (.version 1 2 none)) = false
+    ∧ C10_countOk t [97, 46, 98].length (encodeResp raw raw (.version 1 2 none)).length = true := by decide
+
+example : ∀ t ∈ [RRType.cname, RRType.mx, RRType.srv],
+    match roundTrip raw raw t [97, 46, 98] (.version 1 2 none) with
+    | .ok _ _ r' => r' = .version 1 2 none
+    | .panic => False
+    | _ => True := by
+  intro t ht
+  have hr : RespOk (.version 1 2 none) := ⟨by decide, by decide, fun e he => (by cases he)⟩
+  have h : C10_exception t (encodeResp raw raw (.version 1 2 none)) = false
+      ∧ C10_countOk t [97, 46, 98].length (encodeResp raw raw (.version 1 2 none)).length = true := by
+    simp at ht; rcases ht with rfl | rfl | rfl <;> decide
+  exact C10_no_silent_corruption raw raw raw_good raw_good t [97, 46, 98] [[97], [98]] _ hr (by decide) (by decide)
+    h.1 (fun _ => domainOk_ab) h.2
+
+/-- the key lemma is not vacuous: three NULL records arriving in the order 3, 1, 2 -/
+example : unwrap 3 [.null [3, 0, 30], .null [1, 0, 10, 11], .null [2, 0, 20]] = some [10, 11, 20, 30]
+    ∧ Tagged 3 (tagKey .null) 1 [.null [1, 0, 10, 11], .null [2, 0, 20], .null [3, 0, 30]] [[10, 11], [20], [30]] := by
+  refine ⟨by decide, ?_⟩
+  exact Tagged.cons _ _ _ _ _ (by decide) (by decide) (Tagged.cons _ _ _ _ _ (by decide) (by decide)
+    (Tagged.cons _ _ _ _ _ (by decide) (by decide) (Tagged.nil _)))
+
+/-- the tag range is tight: TXT record 513 (order 512) carries the tag of record 1 (order 0);
+    CNAME record 512 sorts before record 1; AAAA record 65536 carries tag 0 -/
+example : tagKey .txt 512 = tagKey .txt 0 ∧ tagKey .cname 512 < tagKey .cname 1
+    ∧ tagKey .aaaa 65536 < tagKey .aaaa 1 ∧ tagKey .mx 6554 < tagKey .mx 1 := by decide
+
 end SA.DnsResp
 
 #print axioms SA.DnsResp.C10_private_registered
@@ -246,3 +530,13 @@ end SA.DnsResp
 #print axioms SA.DnsResp.C10_witness_aaaa_residue
 #print axioms SA.DnsResp.C10_witness_srv_label
 #print axioms SA.DnsResp.C10_witness_raw_over_names
+#print axioms SA.DnsResp.C10_sort_model_correct
+#print axioms SA.DnsResp.C10_sorts_agree_on_distinct_tags
+#print axioms SA.DnsResp.C10_sort_inverts_tagging
+#print axioms SA.DnsResp.C10_tag_range
+#print axioms SA.DnsResp.C10_reassembly
+#print axioms SA.DnsResp.C10_multi_null_priv
+#print axioms SA.DnsResp.C10_multi_txt
+#print axioms SA.DnsResp.C10_multi_a_aaaa
+#print axioms SA.DnsResp.C10_a_overflow_reported
+#print axioms SA.DnsResp.C10_no_silent_corruption
